@@ -17,6 +17,7 @@
 #ifndef VERIF_OPS_H
 #define VERIF_OPS_H
 #include "spec.h"
+#include "openssl_model.h"
 
 /* HMAC primitive */
 extern const void *g_mac_key;  extern size_t g_mac_keylen;
@@ -58,10 +59,17 @@ extern int g_sgn_done;		/* 1 iff the primitive produced a signature */
 #define GATE_NONE
 #define GATE_HMAC_C09 __CPROVER_requires(SPEC_HMAC_OK(jwt->alg, jwt->key->bits))
 #define GATE_HMAC_C02 __CPROVER_requires(jwt->key->kty == JWK_KEY_TYPE_OCT)
-#define GATE_HMAC_FULL GATE_HMAC_C09 GATE_HMAC_C02
+/* well-formed key item (what the JWK importers produce, property C08): an oct
+ * item carries oct.len readable bytes (at most 2^20: the length travels in an
+ * int inside HMAC()), any other item an EVP_PKEY in provider_data */
+#define ITEM_WF(K) (((K)->kty == JWK_KEY_TYPE_OCT && (K)->oct.len <= 0x100000 && \
+		    ((K)->oct.len == 0 || __CPROVER_is_fresh((K)->oct.key, (K)->oct.len))) || \
+		   ((K)->kty != JWK_KEY_TYPE_OCT && __CPROVER_is_fresh((K)->provider_data, sizeof(struct evp_pkey_st))))
+#define GATE_ITEM_WF __CPROVER_requires(ITEM_WF((jwt)->key))
+#define GATE_HMAC_FULL GATE_HMAC_C09 GATE_HMAC_C02 GATE_ITEM_WF
 #define GATE_PEM_C09 __CPROVER_requires(SPEC_ASYM_OK(jwt->alg, jwt->key->bits))
 #define GATE_PEM_C02 __CPROVER_requires(jwt->key->kty == SPEC_KTY_FOR(jwt->alg))
-#define GATE_PEM_FULL GATE_PEM_C09 GATE_PEM_C02
+#define GATE_PEM_FULL GATE_PEM_C09 GATE_PEM_C02 GATE_ITEM_WF
 
 /* ---- sign_sha_hmac --------------------------------------------------- */
 #define DECL_OPS_SIGN_SHA_HMAC(NAME, GATE) \
